@@ -31,7 +31,8 @@ def run(ctx):
     atoms = gen_cat.ja_atoms()
     pool = gen_cat.universe(atoms[:14], 2)
     feats = [a.feature for a in atoms]
-    roots = {sig(c) for c in ja._possible_root_categories}
+    # independent of ja.py: the categories the command line offers as roots of a Japanese tree
+    roots = {sig(Category.parse(c)) for c in tables.ja_sentence_categories()}
     pairs = []
     n = ctx.budget(12000, 172225)
     if ctx.thorough:
